@@ -21,6 +21,17 @@ for d in sorted(glob.glob(ROOT + "/C*/out/*")):
     subprocess.run(["git", "-C", wt, "checkout", "--", "."], check=True)
     env = dict(os.environ, PYTHONPATH=wt)
     demos = sorted(glob.glob("/verif/seeded/%s-*/demo.py" % pid) + glob.glob("%s/%s/out/b*/demo.py" % (ROOT, pid)))
+    if kind == "refactoring":
+        # a demonstration written against an earlier tree may no longer pass on the clean tree (a later fix: commit changed what it
+        # assumes): only demonstrations that pass on the clean tree say anything about the twin
+        alive = []
+        for dm in demos:
+            try:
+                if subprocess.run(["/venv/bin/python", dm], env=env, cwd=os.path.dirname(dm), capture_output=True, timeout=900).returncode == 0:
+                    alive.append(dm)
+            except subprocess.TimeoutExpired:
+                pass
+        demos = alive
     clean = subprocess.run(["/venv/bin/python", d + "/demo.py"], env=env, cwd=d, capture_output=True, timeout=900).returncode if kind == "breaking" else 0
     ap = subprocess.run(["git", "-C", wt, "apply", d + "/patch.diff"], capture_output=True)
     if ap.returncode != 0:
